@@ -5,6 +5,7 @@ import (
 	"strings"
 
 	"github.com/opsidian/parsley/ast"
+	"github.com/opsidian/parsley/ast/interpreter"
 	"github.com/opsidian/parsley/data"
 	"github.com/opsidian/parsley/parser"
 	"github.com/opsidian/parsley/parsley"
@@ -341,6 +342,9 @@ func c07build(c GCase) *c07graph {
 		Inside:      gd.Inside,
 		MemoExpr:    c.MemoExpr,
 		ShareLeaves: true,
+		// every sequence carries the library's own list interpreter: the trees are evaluated (twice) after the parse, and
+		// evaluation must not change what the parsers returned either
+		Interp: interpreter.Array(),
 		Leaf: func(e *gram.Expr, p parsley.Parser) parsley.Parser {
 			return parser.Func(func(ctx *parsley.Context, lrc data.IntMap, pos parsley.Pos) (parsley.Node, data.IntSet, parsley.Error) {
 				n, cp, err := p.Parse(ctx, lrc, pos)
@@ -438,6 +442,17 @@ func c07case(c GCase, a *run.Acc) {
 		return
 	}
 	a.Count("judged", 1)
+	// evaluation reads the tree, it must not write to it: every alternative of the result is evaluated twice with the
+	// library's interpreter.Array (values and errors are not judged here)
+	for _, alt := range gram.Alternatives(o.Node) {
+		for k := 0; k < 2; k++ {
+			func() {
+				defer func() { recover() }()
+				parsley.EvaluateNode(nil, alt)
+			}()
+			a.Count("evaluations of returned trees (library interpreter)", 1)
+		}
+	}
 	// keep up to 150 of this parse's results for the cross-parse re-check of the next case
 	keep := m.snaps
 	if len(keep) > 150 {
